@@ -158,8 +158,10 @@ PROPS = {
               'iff y == 0, first failure wins; for / an Overflow panic iff the truncated quotient is not representable, i.e. MIN / -1; otherwise '
               'the result is the quotient truncated toward zero resp. the remainder with the sign of the dividend); the arm of * (array '
               'multiplier with sign handling, unit mult: row invariant (low c bits of x) * y == (addend of the next row) * 2^c + (product bits '
-              'produced so far); an Overflow panic iff the exact signed / unsigned product is not representable, exact otherwise). '
-              'Casts, the constant-multiplication rewrite and the composition inside compile (operand evaluation, width extension, dispatch) are '
+              'produced so far); an Overflow panic iff the exact signed / unsigned product is not representable, exact otherwise); the Cast arm '
+              '(narrowing keeps the value modulo 2^m, widening keeps the signed / unsigned value of the source; extend_to_bits by its contract, '
+              'which the Kani harnesses prove for every width pair of the language). '
+              'The constant-multiplication rewrite and the composition inside compile (operand evaluation, width extension, dispatch) are '
               'NOT proved: they are covered by a bounded differential check through compile + eval against exact arithmetic (quick: '
               'boundary-directed and random operands for all widths, all 16 binary operators, both unary operators, all casts, var/const '
               'operand modes; thorough: additionally all 2^16 operand pairs of u8/i8 per operator and all source values of 8/16-bit casts).',
@@ -167,9 +169,9 @@ PROPS = {
              '(Vec, slices, pow2 lemmas, ghost iterators of ranges / reversed ranges / slices); Vec::split_off via vstd; derived PartialEq of the field-less enum Op is structural equality (admit); <[T]>::to_vec specification (assume_specification); rules R0-R3, R5, R5c, R7-R9, R12-R14; a lone `;` inserted after a unit-typed tail '
              'expression where a proof block must follow. The operand types of an arm are abstract (only signedness is used).',
         title='integer operators bit-exact at every width: adder / negation / subtraction / comparators / equality circuits and the arms of '
-              '-x, !x, +, -, *, /, %, &, |, ^, <, >, ==, !=, <<, >> proved; casts and the constant-multiplication rewrite by bounded differential check',
-        unverified=['the constant-multiplication rewrite (x * c => x + .. + x, builds new AST nodes and recurses into compile; known finding C03-F1), Cast / extend_to_bits '
-                    '(Kani for fixed width pairs): bounded differential only',
+              '-x, !x, +, -, *, /, %, &, |, ^, <, >, ==, !=, <<, >> and casts proved; the constant-multiplication rewrite by bounded differential check',
+        unverified=['the constant-multiplication rewrite (x * c => x + .. + x, builds new AST nodes and recurses into compile; known finding C03-F1): bounded differential only',
+                    'extend_to_bits itself for width pairs other than those of the language (Kani proves 1->8/16/32/64, 8->16/32/64, 16->32/64, 32->64; trusted contract in Verus)',
                     'operand width extension and the dispatch inside the big Op arm of compile; <= and >= are desugared by the parser into (x < y) | (x == y) resp. (x > y) | (x == y)'],
     ),
     'C13': dict(
